@@ -25,7 +25,11 @@ impl Case {
         let mut p = Vec::new();
         if let Some((vc, afp)) = self.head {
             p.extend_from_slice(&crate::oracle::v2::SIG);
-            p.extend_from_slice(&[vc, afp, 0, 0]);
+            // the length field of that fixed part: zero (what the builder writes first), or - for an odd filler seed - already
+            // the final payload size, as when the caller stated the length up front
+            let fin = self.prefill_len + bld::ref_size(&self.val);
+            let l = if self.prefill_seed % 2 == 1 && fin <= 65535 { fin as u16 } else { 0 };
+            p.extend_from_slice(&[vc, afp, (l >> 8) as u8, l as u8]);
         }
         p.extend(fill(self.prefill_seed, self.prefill_len));
         p
@@ -332,6 +336,31 @@ pub fn judge_seq(c: &SeqCase, st: &mut Stats) -> Verdict {
 pub fn gen_seq(t: &mut Tape) -> SeqCase {
     let n = t.usize_in(2, 5);
     let mut vals = Vec::new();
+    if t.chance(1, 6) {
+        // the shape real headers have: an SSL container TLV (exactly its 5 fixed bytes, or with sub-TLVs inside), followed by
+        // TLVs of the SSL sub-types, possibly with an ALPN / authority TLV in front
+        if t.coin() {
+            vals.push(Val::TupleU8 { kind: *t.pick(&[0x01u8, 0x02, 0x05]), len: t.usize_in(0, 12), seed: crate::engine::gen_seed(t) });
+        }
+        let ssl_len = *t.pick(&[5usize, 5, 5, 0, 4, 6, 15]);
+        let ssl_seed = crate::engine::gen_seed(t);
+        vals.push(match t.below(3) {
+            0 => Val::Tlv { kind: 0x20, len: ssl_len, seed: ssl_seed },
+            1 => Val::TupleU8 { kind: 0x20, len: ssl_len, seed: ssl_seed },
+            _ => Val::TupleType { ty: crate::oracle::enc::TYPE_CODES.iter().position(|(_, c)| *c == 0x20).unwrap_or(0), len: ssl_len, seed: ssl_seed },
+        });
+        for _ in 0..t.usize_in(1, 3) {
+            let kind = 0x21 + t.below(5) as u8;
+            let len = t.usize_in(0, 12);
+            let seed = crate::engine::gen_seed(t);
+            vals.push(match t.below(3) {
+                0 => Val::Tlv { kind, len, seed },
+                1 => Val::TupleU8 { kind, len, seed },
+                _ => Val::TupleType { ty: crate::oracle::enc::TYPE_CODES.iter().position(|(_, c)| *c == kind).unwrap_or(0), len, seed },
+            });
+        }
+        return SeqCase { vals, prefill_len: if t.coin() { 0 } else { t.usize_in(0, 40) }, prefill_seed: crate::engine::gen_seed(t) };
+    }
     for _ in 0..n {
         // an oversize (refused) value one time in six
         let v = if t.chance(1, 6) {
@@ -412,6 +441,18 @@ pub fn run(r: &mut Runner) -> &'static str {
             for len in [0usize, 2, 300] {
                 cases.push(Case { val: Val::Tlv { kind, len, seed: kind as u32 + 1 }, prefill_len: 1, prefill_seed: 2, head: None });
                 cases.push(Case { val: Val::TupleU8 { kind, len, seed: kind as u32 + 1 }, prefill_len: 1, prefill_seed: 2, head: None });
+            }
+        }
+        // every registered type x short lengths x content classes (zeros, ones, random), as TLV struct and as (Type, bytes) pair,
+        // into a writer that holds a fixed part whose length field is zero / already final
+        for ty in 0..12usize {
+            for len in [0usize, 1, 2, 4, 5, 8, 16] {
+                for seed in [0u32, crate::engine::SEED_ONES, 77] {
+                    for prefill_seed in [2u32, 3] {
+                        cases.push(Case { val: Val::TupleType { ty, len, seed }, prefill_len: 0, prefill_seed, head: Some((0x21, 0x11)) });
+                        cases.push(Case { val: Val::Tlv { kind: crate::oracle::enc::TYPE_CODES[ty].1, len, seed }, prefill_len: 12, prefill_seed, head: Some((0x21, 0x11)) });
+                    }
+                }
             }
         }
         for len in [65534usize, 65535, 65536, 65537, 70000] {
